@@ -44,6 +44,7 @@ type saoWorld struct {
 	exportEvery int
 	grants      map[string]*owner // data id -> read-write grantee
 	revoked     []revokedGrant    // grants the owner has withdrawn: the former grantee keeps trying
+	readers     map[string]*owner // data id -> read-only grantee named when the model was created
 	reported     []*saotypes.Fault // faults a fishman's report put on record
 	scarce       bool             // only two providers accept orders: selections run out of candidates
 	silent       *Account         // a provider that never completes anything (scarce worlds)
@@ -183,10 +184,16 @@ func (w *saoWorld) storeNew(mut string) {
 	p := w.proposal(o, gw, dataId, dataId, 1, sizes[rng.Intn(len(sizes))], int32(1+rng.Intn(3)), durs[rng.Intn(len(durs))], tmos[rng.Intn(len(tmos))])
 	key, kid := o.key, o.kid
 	msgProvider := gw.Bech()
+	var reader *owner
 	switch mut {
 	case "sponsor":
 		p.PaymentDid = w.sponsor.did
 		signer = w.sponsor.acct
+	case "no-alias":
+		p.Alias = "" // valid: the model is then indexed under its data id
+	case "with-readers":
+		reader = w.owners[rng.Intn(len(w.owners))]
+		p.ReadonlyDids = []string{reader.did} // a read-only grantee named at creation
 	case "sponsor-as-provider":
 		p.PaymentDid = w.sponsor.did // submitted by a stranger who names the sponsor's payment address as provider
 		signer = w.attacker
@@ -244,6 +251,12 @@ func (w *saoWorld) storeNew(mut string) {
 	res := w.r.Store(signer, msg)
 	if res.Class == "ok" {
 		w.models = append(w.models, p.DataId)
+		if reader != nil && reader != o {
+			if w.readers == nil {
+				w.readers = map[string]*owner{}
+			}
+			w.readers[p.DataId] = reader
+		}
 	}
 }
 
@@ -379,6 +392,9 @@ func (w *saoWorld) update(mut string) {
 		signerOwner = w.owners[(rng.Intn(len(w.owners)))]
 	case "readonly":
 		signerOwner = w.sponsor // the sponsor DID only ever gets read-only access
+		if rd, ok := w.readers[dataId]; ok {
+			signerOwner = rd
+		}
 	}
 	p := w.proposal(signerOwner, gw, dataId, commitId, op, uint64(500000+rng.Intn(3)*500000), int32(1+rng.Intn(2)), []uint64{3600, 7200}[rng.Intn(2)], 50)
 	jws := SignJWS(&p, signerOwner.key, signerOwner.kid)
@@ -470,6 +486,9 @@ func (w *saoWorld) terminate(mut string) {
 	}
 	if mut == "readonly" {
 		o = w.sponsor
+		if rd, ok := w.readers[dataId]; ok {
+			o = rd
+		}
 	}
 	gw := w.gateways[rng.Intn(len(w.gateways))]
 	p := saotypes.TerminateProposal{Owner: o.did, DataId: dataId}
@@ -751,7 +770,7 @@ func runSaoHistory(r *Recorder, rng *rand.Rand, accts []*Account, nOps int, long
 			x := rng.Intn(100)
 			switch {
 			case x < 18 || len(w.models) == 0:
-				w.storeNew(weighted(rng, []string{"sponsor", "sponsor-foreign", "sponsor-as-provider", "owner-direct", "owner-direct", "owner-direct", "owner-direct", "neg-timeout", "zero-timeout", "replica0", "replica-neg",
+				w.storeNew(weighted(rng, []string{"sponsor", "sponsor-foreign", "sponsor-as-provider", "no-alias", "with-readers", "with-readers", "owner-direct", "owner-direct", "owner-direct", "owner-direct", "neg-timeout", "zero-timeout", "replica0", "replica-neg",
 					"replica-many", "short", "bad-cid", "huge-size", "zero-size", "bad-dataid", "wrong-key", "wrong-did", "foreign-version", "stranger-gateway",
 					"claimed-provider", "tampered", "unknown-gateway"}, 35))
 			case x < 45:
@@ -789,7 +808,7 @@ func runSaoHistory(r *Recorder, rng *rand.Rand, accts []*Account, nOps int, long
 				if rng.Intn(2) == 0 {
 					r.AddVstorage(p, uint64(1000000*(1+rng.Intn(5))))
 				} else {
-					r.RemoveVstorage(p, uint64(1000000*(1+rng.Intn(40))))
+					r.RemoveVstorage(p, uint64(1000000*(1+rng.Intn(40)))-uint64(rng.Intn(3))*499999)
 				}
 			}
 			done++
